@@ -63,7 +63,26 @@ func (c *Ctx) runCongruent(rule string, pkgs []*packages.Package, fileOK func(fn
 				continue
 			}
 			c.analysed(qname(fn))
+			// parameters of package helpers called from fn, bound to the
+			// caller's values while the helper is looked at
+			bind := map[*ssa.Parameter]ssa.Value{}
+			resolve := func(v ssa.Value) ssa.Value {
+				for i := 0; i < 4; i++ {
+					p, ok := v.(*ssa.Parameter)
+					if !ok {
+						break
+					}
+					b, ok := bind[p]
+					if !ok {
+						break
+					}
+					v = b
+				}
+				return v
+			}
+			helperDepth := 0
 			multiple := func(v ssa.Value) bool {
+				v = resolve(v)
 				f, ok := constFloat(v)
 				if !ok {
 					return false
@@ -81,6 +100,10 @@ func (c *Ctx) runCongruent(rule string, pkgs []*packages.Package, fileOK func(fn
 				res := false
 				switch x := v.(type) {
 				case *ssa.Parameter:
+					if b, ok := bind[x]; ok {
+						res = cong(b)
+						break
+					}
 					res = x == theta
 				case *ssa.Phi:
 					res = true
@@ -99,7 +122,35 @@ func (c *Ctx) runCongruent(rule string, pkgs []*packages.Package, fileOK func(fn
 				case *ssa.Call:
 					if f := x.Call.StaticCallee(); f != nil {
 						if f.Pkg != nil && f.Pkg.Pkg.Path() == "math" && f.Name() == "Mod" {
-							res = cong(x.Call.Args[0])
+							res = cong(x.Call.Args[0]) && multiple(x.Call.Args[1])
+						} else if f != fn && f.Blocks != nil && c.isRepoPkg(f.Pkg.Pkg) && helperDepth < 2 && f.Signature.Results().Len() == 1 && len(f.Params) == len(x.Call.Args) {
+							// a helper: every value it returns, with its parameters
+							// bound to this call's arguments
+							helperDepth++
+							for i, prm := range f.Params {
+								bind[prm] = x.Call.Args[i]
+							}
+							res = true
+							any := false
+							for _, hb := range f.Blocks {
+								if ret, ok := hb.Instrs[len(hb.Instrs)-1].(*ssa.Return); ok {
+									any = true
+									if !cong(ret.Results[0]) {
+										res = false
+									}
+								}
+							}
+							res = res && any
+							for _, prm := range f.Params {
+								delete(bind, prm)
+								delete(memo, prm)
+							}
+							for k := range memo {
+								if ins, ok := k.(ssa.Instruction); ok && ins.Parent() == f {
+									delete(memo, k)
+								}
+							}
+							helperDepth--
 						} else if f == fn {
 							for i, prm := range fn.Params {
 								if prm == theta {
